@@ -60,7 +60,8 @@ theorem slotTargets_js (mt : Tables.MediaType) (deps : List BDep) (td sm : Optio
       constructor
       · intro h; cases h
       · rintro ⟨r, h⟩; exact absurd h (hne t r)
-  simp only [slotTargets, List.mem_append, hsm, depCodeTargets, List.mem_filterMap]
+  simp only [slotTargets, Tables.pruneFollowsSourceMap, if_true, List.mem_append, hsm, depCodeTargets,
+    List.mem_filterMap]
 
 /-- the types dependency is never a reason to keep anything -/
 theorem slotTargets_ignores_types_dependency (mt : Tables.MediaType) (deps : List BDep)
